@@ -159,6 +159,8 @@ def callee_from_clauses(name, params, requires, ensures, results, ghosts=None, r
                     st.env[nm] = core.alloc(st, 2, core.fresh('loc_%s_%s' % (name, nm), core.A2R), shp_, core.REAL)
                 elif kind == 'ivec':
                     st.env[nm] = core.alloc(st, 1, core.fresh('loc_%s_%s' % (name, nm), core.A1I), shp_, core.INT)
+                elif kind == 'bvec':
+                    st.env[nm] = core.alloc(st, 1, core.fresh('loc_%s_%s' % (name, nm), core.A1B), shp_, core.BOOL)
                 else:
                     raise ContractError('rebind kind %s' % kind)
                 st.ghost['%s__%s' % (name, nm)] = st.env[nm]       # the caller's ghost code may name the callee's local (lemma instances about it)
